@@ -223,10 +223,15 @@ impl Report {
                 }
             }
             None => {
-                if i.violations.len() < 200 {
+                // keep at most 25 recorded cases per (kind, site) group, count the rest
+                let gkey = format!("violations[{}|{}]", v.kind, v.site);
+                let n = {
+                    let e = i.counters.entry(gkey).or_insert(0);
+                    *e += 1;
+                    *e
+                };
+                if n <= 25 && i.violations.len() < 2000 {
                     i.violations.push(v);
-                } else {
-                    *i.counters.entry("violations_not_recorded".into()).or_insert(0) += 1;
                 }
             }
         }
@@ -281,7 +286,10 @@ impl Report {
                 path.display(),
                 kind,
                 site,
-                vs.len(),
+                i.counters
+                    .get(&format!("violations[{}|{}]", kind, site))
+                    .copied()
+                    .unwrap_or(vs.len() as u64),
                 v.what
             );
             exit = 1;
